@@ -177,6 +177,23 @@ def handlePBlock (ws : List String) : String :=
     | _, _, _, _ => "bad-request"
   | _ => "bad-request"
 
+def showOff : Option Nat → String
+  | some o => toString o
+  | none => "_"
+
+/-- `packsrc a|b <t> <row_stride> <col_stride> <r0> <r1> <c0> <c1>`: storage offsets read by
+`pack_a_block` / `pack_b_block` for the block, in write order (`packASrc` / `packBSrc`). -/
+def handlePackSrc (ws : List String) : String :=
+  match ws with
+  | kind :: rest =>
+    match (rest.take 7).mapM String.toNat? with
+    | some [t, rstr, cstr, r0, r1, c0, c1] =>
+      if kind == "a" then joinWith "," ((packASrc t rstr cstr r0 r1 c0 c1).map showOff)
+      else if kind == "b" then joinWith "," ((packBSrc t rstr cstr r0 r1 c0 c1).map showOff)
+      else "bad-request"
+    | _ => "bad-request"
+  | _ => "bad-request"
+
 def handle (line : String) : String :=
   match line.splitOn "|" with
   | [] => "bad-request"
@@ -186,6 +203,7 @@ def handle (line : String) : String :=
     | "gemm" :: ws => handleGemm ws rest
     | "pack" :: ws => handlePack ws
     | "pblock" :: ws => handlePBlock ws
+    | "packsrc" :: ws => handlePackSrc ws
     | _ => "bad-request"
 
 end RtenVerif.Driver.C16
